@@ -8,6 +8,8 @@ pub broadcast axiom fn axiom_vec_u8_ext(a: Vec<u8>, b: Vec<u8>) ensures (#[trigg
 /// ASSUMED [L-STD]: a Vec never holds more than usize::MAX elements
 pub broadcast axiom fn axiom_vec_len_bound<T>(v: Vec<T>) ensures #[trigger] v@.len() <= usize::MAX;
 pub assume_specification<T> [<[T] as AsRef<[T]>>::as_ref] (s: &[T]) -> (r: &[T]) ensures r@ == s@;
+/// ASSUMED [L-STD]: a boxed slice is its content
+pub assume_specification<T: ?Sized, A: core::alloc::Allocator> [<Box<T, A> as AsRef<T>>::as_ref] (b: &Box<T, A>) -> (r: &T) ensures r == &**b;
 pub assume_specification<T, const N: usize> [<Vec<T> as From<[T; N]>>::from] (a: [T; N]) -> (v: Vec<T>) ensures v@ == a@;
 
 /// E15: `X.iter().skip(K).all(CLOSURE)` — ASSUMED [L-STD] semantics of the iterator adapters: the
